@@ -31,7 +31,7 @@ PROPS = {
     'C01': dict(units=['core_add', 'addsub'], title='add/sub/neg/abs exact in every overflow mode'),
     'C02': dict(units=['mul'], title='multiplication exact'),
     'C03': dict(units=['div', 'sdiv'], title='division and remainder'),
-    'C04': dict(units=['addsub', 'mul', 'div', 'sdiv', 'powlog', 'bits', 'shift_ops', 'cmp2'], title='panics exactly where primitives panic'),
+    'C04': dict(units=['addsub', 'mul', 'div', 'sdiv', 'powlog', 'bits', 'shift_ops', 'cmp2', 'ops_arith_u', 'ops_arith_i', 'ops_shl_u', 'ops_shr_u', 'ops_shl_i', 'ops_shr_i'], title='panics exactly where primitives panic'),
     'C05': dict(units=['shift_bits', 'shift_val', 'shift_rot', 'shift_ops'], title='shifts and rotations'),
     'C06': dict(units=['bits'], title='bitwise logic, counts, bit manipulation'),
     'C07': dict(units=['cmp', 'cmp2'], title='comparison, equality, hashing'),
